@@ -34,6 +34,7 @@ type Program struct {
 	Tape      []byte   `json:"tape"`
 	Lossy     bool     `json:"lossy"` // tape governs message fates from the start
 	QuietMs   int      `json:"quiet_ms"`
+	ApplyMs   []int    `json:"apply_ms,omitempty"`   // per server: FSM.Apply/ApplyBatch takes this long while faults are allowed (a slow state machine)
 	LatencyMs int      `json:"latency_ms,omitempty"` // every message takes 1..LatencyMs ms (0: instantaneous)
 	Profile   string   `json:"profile"`
 }
